@@ -49,3 +49,35 @@ func VH_RuleTables() {
 		}
 	}
 }
+
+
+func init() { vEntries["VH_ArchNames"] = VH_ArchNames }
+
+// VH_ArchNames: every architecture name of the published table, given as -F arch=NAME, is encoded as
+// that table's code (the resolver in front of the table included), so no two names share a code.
+func VH_ArchNames() {
+	type ent struct {
+		name string
+		code uint32
+	}
+	var all []ent
+	for code, name := range auparse.AuditArchNames {
+		all = append(all, ent{name, uint32(code)})
+	}
+	for i := 1; i < len(all); i++ {
+		for j := i; j > 0 && all[j].name < all[j-1].name; j-- {
+			all[j], all[j-1] = all[j-1], all[j]
+		}
+	}
+	vAssert(len(all) > 20, "C20/arch-table-unexpectedly-small")
+	e := all[vChoose("arch", len(all))]
+	op := []string{"=", "!="}[vChoose("op", 2)]
+	w, err := Build(&SyscallRule{Type: AppendSyscallRuleType, List: "exit", Action: "always", Filters: []FilterSpec{{Type: ValueFilterType, LHS: "arch", Comparator: op, RHS: e.name}}})
+	if err != nil {
+		vReach("C20/arch-name-rejected")
+		return
+	}
+	vReach("C20/arch-name-accepted")
+	vAssert(vLE32([]byte(w), vOffValues) == e.code, "C20/arch-name-resolves-to-another-code")
+	vAssert(vLE32([]byte(w), vOffFields) == vUAPIFields["arch"], "C20/arch-field-code")
+}
